@@ -36,6 +36,7 @@ theorem OutRel.refl_of {R : C → C → Prop} (o : Out K V C) (h : ∀ m, o = .c
 
 theorem MInv.toMSim (h : MInv M Q QC) : MSim M M (fun n c s => c = s ∧ Q n c) (fun c s => c = s ∧ QC c) where
   weaken := fun ⟨e, q⟩ => ⟨e, h.weaken q⟩
+  log := fun ⟨e, _⟩ => by rw [e]
   find := fun k ⟨e, _⟩ => by rw [e]
   hit := fun k ⟨e, q⟩ hf => by
     subst e
@@ -50,7 +51,7 @@ theorem MInv.toMSim (h : MInv M Q QC) : MSim M M (fun n c s => c = s ∧ Q n c) 
     exact ⟨⟨rfl, q'⟩, OutRel.refl_of _ (fun m hm => ⟨rfl, hc m hm⟩)⟩
 
 /-- one public call with a re-entrant on_miss keeps the invariant; a cache returned by copy() has it -/
-theorem MInv.rstep (h : MInv M Q QC) (P : K → OmProg K V) (fuel : Nat) {n : Nat} {c : C} (q : Q n c) (op : Op K V) :
+theorem MInv.rstep (h : MInv M Q QC) (P : List K → K → OmProg K V) (fuel : Nat) {n : Nat} {c : C} (q : Q n c) (op : Op K V) :
     Q n (M.rstep P fuel c op).1 ∧ ∀ m, (M.rstep P fuel c op).2 = .cache m → QC m := by
   have := h.toMSim.rstep P fuel (n := n) (c := c) (s := c) ⟨rfl, q⟩ op
   refine ⟨this.1.2, fun m hm => ?_⟩
@@ -61,18 +62,18 @@ theorem MInv.rstep (h : MInv M Q QC) (P : K → OmProg K V) (fuel : Nat) {n : Na
 
 /-- `__getitem__` with a re-entrant on_miss keeps the invariant; after a KeyError outcome one more miss
     than soft misses has been counted -/
-theorem MInv.rget (h : MInv M Q QC) (P : K → OmProg K V) (fuel : Nat) {n : Nat} {c : C} (q : Q n c) (k : K) :
+theorem MInv.rget (h : MInv M Q QC) (P : List K → K → OmProg K V) (fuel : Nat) {n : Nat} {c : C} (q : Q n c) (k : K) :
     Q n (M.rget P fuel c k).1 ∧ ((M.rget P fuel c k).2 = .keyError → Q (n + 1) (M.rget P fuel c k).1) := by
   have := h.toMSim.rget P fuel n c c k ⟨rfl, q⟩
   exact ⟨this.1.2, fun e => (this.2.2 e).2⟩
 
-/-- the body of an on_miss program keeps the invariant -/
-theorem MInv.runBody (h : MInv M Q QC) (P : K → OmProg K V) (fuel : Nat) (l : List (Op K V)) {n : Nat} {c : C}
-    (q : Q n c) : Q n (runWith (M.rstep P fuel) c l).1 :=
-  (h.toMSim.runWith (h.toMSim.rget P fuel) l (n := n) (c := c) (s := c) ⟨rfl, q⟩).1.2
+/-- a run of the callback keeps the invariant -/
+theorem MInv.runBody (h : MInv M Q QC) (P : List K → K → OmProg K V) (fuel : Nat) (p : OmProg K V) {n : Nat} {c : C}
+    (q : Q n c) : Q n (runProg (M.rstep P fuel) c p).1 :=
+  (h.toMSim.runProg (h.toMSim.rget P fuel) p (n := n) (c := c) (s := c) ⟨rfl, q⟩).1.2
 
 /-- a whole history -/
-theorem MInv.rrun (h : MInv M Q QC) (P : K → OmProg K V) (fuel : Nat) {n : Nat} {c : C} (q : Q n c)
+theorem MInv.rrun (h : MInv M Q QC) (P : List K → K → OmProg K V) (fuel : Nat) {n : Nat} {c : C} (q : Q n c)
     (ops : List (Op K V)) : Q n (M.rrun P fuel c ops) := by
   unfold Mach.rrun
   induction ops generalizing c with
@@ -161,7 +162,7 @@ theorem Cache.machConfig (cfg : Bool × Nat × Option (K → OmRes V)) :
 
 /-! worlds and single lookups -/
 
-theorem rwstep_config (P : K → OmProg K V) (fuel : Nat) {w : List (Cache K V)} {cfg : Bool × Nat × Option (K → OmRes V)}
+theorem rwstep_config (P : List K → K → OmProg K V) (fuel : Nat) {w : List (Cache K V)} {cfg : Bool × Nat × Option (K → OmRes V)}
     (h : ∀ c ∈ w, c.config = cfg) (op : WOp K V) : ∀ c ∈ (rwstep P fuel w op).1, c.config = cfg := by
   cases op with
   | on i op =>
@@ -198,7 +199,7 @@ theorem rwstep_config (P : K → OmProg K V) (fuel : Nat) {w : List (Cache K V)}
   | nec i j => exact (show ∀ c ∈ (wstep w (.nec i j)).1, c.config = cfg from wstep_config h _)
   | updc i j kw => exact (show ∀ c ∈ (wstep w (.updc i j kw)).1, c.config = cfg from wstep_config h _)
 
-theorem rwrun_config (P : K → OmProg K V) (fuel : Nat) {w : List (Cache K V)} {cfg : Bool × Nat × Option (K → OmRes V)}
+theorem rwrun_config (P : List K → K → OmProg K V) (fuel : Nat) {w : List (Cache K V)} {cfg : Bool × Nat × Option (K → OmRes V)}
     (h : ∀ c ∈ w, c.config = cfg) (ops : List (WOp K V)) : ∀ c ∈ wrunG (rwstep P fuel) w ops, c.config = cfg := by
   unfold wrunG
   induction ops generalizing w with
@@ -206,65 +207,60 @@ theorem rwrun_config (P : K → OmProg K V) (fuel : Nat) {w : List (Cache K V)} 
   | cons op ops ih => exact ih (rwstep_config P fuel h op)
 
 /-- `__getitem__` of a key that is in the cache: the hit path, whatever on_miss is -/
-theorem Cache.rget_found (P : K → OmProg K V) (fuel : Nat) {c : Cache K V} {k : K} {v : V}
+theorem Cache.rget_found (P : List K → K → OmProg K V) (fuel : Nat) {c : Cache K V} {k : K} {v : V}
     (hk : lookup k c.ring = some v) : Cache.mach.rget P fuel c k = c.getitem k := by
   have hf : (Cache.mach (V := V)).find c k = true := by show (lookup k c.ring).isSome = true; rw [hk]; rfl
   cases fuel <;> simp only [Mach.rget, hf, if_true] <;> rfl
 
-/-- `__getitem__` of an absent key at nesting depth >= 1: count the miss, run the program; it raised -/
-theorem Cache.rget_absent_raise (P : K → OmProg K V) (n : Nat) {c c2 : Cache K V} {k : K} {e : Out K V (Cache K V)}
-    (hk : lookup k c.ring = none)
-    (hb : runWith (Cache.mach.rstep P n) (Cache.mach.missed c k) (P k).acts = (c2, some e)) :
-    Cache.mach.rget P (n + 1) c k = (c2, e) := by
-  have hf : (Cache.mach (V := V)).find c k = false := by show (lookup k c.ring).isSome = false; rw [hk]; rfl
-  simp only [Mach.rstep] at hb
-  simp only [Mach.rget, hf, Bool.false_eq_true, if_false, hb]
+/-- the end of `__getitem__` on the miss path, after the callback ended in state `body` with outcome `r` -/
+def Cache.finish (body : Cache K V) (k : K) : OmRes V → Cache K V × Out K V (Cache K V)
+  | .ret v => (body.setitem k v, .val v)
+  | .keyError => (body, .keyError)
+  | .error => (body, .raised)
 
-/-- … the program ran to its end: its outcome decides; a returned value is stored by the full `__setitem__` -/
-theorem Cache.rget_absent_done (P : K → OmProg K V) (n : Nat) {c c2 : Cache K V} {k : K}
+/-- `__getitem__` of an absent key at nesting depth >= 1: count the miss, run the callback (final state `body`,
+    outcome `r`); a returned value is stored by the full `__setitem__`, an exception propagates -/
+theorem Cache.rget_absent (P : List K → K → OmProg K V) (n : Nat) {c body : Cache K V} {k : K} {r : OmRes V}
     (hk : lookup k c.ring = none)
-    (hb : runWith (Cache.mach.rstep P n) (Cache.mach.missed c k) (P k).acts = (c2, none)) :
-    Cache.mach.rget P (n + 1) c k =
-      match (P k).res with
-      | .ret v => (c2.setitem k v, .val v)
-      | .keyError => (c2, .keyError)
-      | .error => (c2, .raised) := by
+    (hb : runProg (Cache.mach.rstep P n) (Cache.mach.missed c k) (P c.omLog k) = (body, r)) :
+    Cache.mach.rget P (n + 1) c k = Cache.finish body k r := by
   have hf : (Cache.mach (V := V)).find c k = false := by show (lookup k c.ring).isSome = false; rw [hk]; rfl
-  simp only [Mach.rstep] at hb
-  simp only [Mach.rget, hf, Bool.false_eq_true, if_false, hb]
-  cases (P k).res <;> rfl
+  have hb' : runProg (Cache.mach.stepWith (Cache.mach.rget P n)) (Cache.mach.missed c k)
+      (P ((Cache.mach (V := V)).log c) k) = (body, r) := hb
+  simp only [Mach.rget, hf, Bool.false_eq_true, if_false, hb']
+  cases r <;> rfl
 
 /-- … at the depth guard: the callback raises at once -/
-theorem Cache.rget_absent_zero (P : K → OmProg K V) {c : Cache K V} {k : K} (hk : lookup k c.ring = none) :
+theorem Cache.rget_absent_zero (P : List K → K → OmProg K V) {c : Cache K V} {k : K} (hk : lookup k c.ring = none) :
     Cache.mach.rget P 0 c k = ({ c with miss := c.miss + 1, omLog := c.omLog ++ [k] }, .raised) := by
   have hf : (Cache.mach (V := V)).find c k = false := by show (lookup k c.ring).isSome = false; rw [hk]; rfl
   simp only [Mach.rget, hf, Bool.false_eq_true, if_false]
   rfl
 
-/-- programs that make no calls: the re-entrant `__getitem__` is the plain one -/
-theorem Cache.rget_pure (P : K → OmProg K V) (hP : ∀ k, (P k).acts = []) (n : Nat) (c : Cache K V)
-    (hom : c.onMiss = some (fun k => (P k).res)) (k : K) : Cache.mach.rget P (n + 1) c k = c.getitem k := by
+/-- callbacks that make no calls: the re-entrant `__getitem__` is the plain one -/
+theorem Cache.rget_pure (P : List K → K → OmProg K V) (f : K → OmRes V) (hP : ∀ lg k, P lg k = .done (f k)) (n : Nat)
+    (c : Cache K V) (hom : c.onMiss = some f) (k : K) : Cache.mach.rget P (n + 1) c k = c.getitem k := by
   cases hk : lookup k c.ring with
   | some v => exact Cache.rget_found P _ hk
   | none =>
-    have hb : runWith (Cache.mach.rstep P n) (Cache.mach.missed c k) (P k).acts = (Cache.mach.missed c k, none) := by
-      rw [hP k]; rfl
-    rw [Cache.rget_absent_done P n hk hb]
-    cases hres : (P k).res with
+    have hb : runProg (Cache.mach.rstep P n) (Cache.mach.missed c k) (P c.omLog k) = (Cache.mach.missed c k, f k) := by
+      rw [hP]; rfl
+    rw [Cache.rget_absent P n hk hb]
+    cases hres : f k with
     | ret v => rw [Cache.getitem_onMiss hk hom hres]; rfl
     | keyError => rw [Cache.getitem_onMiss_keyError hk hom hres]; rfl
     | error => rw [Cache.getitem_onMiss_error hk hom hres]; rfl
 
-theorem Cache.rstep_pure (P : K → OmProg K V) (hP : ∀ k, (P k).acts = []) (n : Nat) (c : Cache K V)
-    (hom : c.onMiss = some (fun k => (P k).res)) (op : Op K V) : Cache.mach.rstep P (n + 1) c op = C02.step c op := by
+theorem Cache.rstep_pure (P : List K → K → OmProg K V) (f : K → OmRes V) (hP : ∀ lg k, P lg k = .done (f k)) (n : Nat)
+    (c : Cache K V) (hom : c.onMiss = some f) (op : Op K V) : Cache.mach.rstep P (n + 1) c op = C02.step c op := by
   cases op with
-  | getitem k => exact Cache.rget_pure P hP n c hom k
+  | getitem k => exact Cache.rget_pure P f hP n c hom k
   | get k d =>
-    simp only [Mach.rstep, Mach.stepWith, C02.step, Cache.rget_pure P hP n c hom k]
+    simp only [Mach.rstep, Mach.stepWith, C02.step, Cache.rget_pure P f hP n c hom k]
     cases c.getitem k with
     | mk c' o => cases o <;> rfl
   | setdefault k d =>
-    simp only [Mach.rstep, Mach.stepWith, C02.step, Cache.rget_pure P hP n c hom k]
+    simp only [Mach.rstep, Mach.stepWith, C02.step, Cache.rget_pure P f hP n c hom k]
     cases c.getitem k with
     | mk c' o => cases o <;> rfl
   | setitem k v => rfl
@@ -319,7 +315,7 @@ theorem Cache.machMono (b : Cache K V) :
       by rw [hc.2.2.1]; exact h.soft⟩
 
 /-- get / setdefault add nothing to the on_miss log, the hits and the misses of their `__getitem__` -/
-theorem Cache.rstep_lookup_log (P : K → OmProg K V) (fuel : Nat) (c : Cache K V) {op : Op K V} {k : K}
+theorem Cache.rstep_lookup_log (P : List K → K → OmProg K V) (fuel : Nat) (c : Cache K V) {op : Op K V} {k : K}
     (hop : op.lookupKey = some k) :
     (Cache.mach.rstep P fuel c op).1.omLog = (Cache.mach.rget P fuel c k).1.omLog ∧
     (Cache.mach.rstep P fuel c op).1.miss = (Cache.mach.rget P fuel c k).1.miss ∧
@@ -341,15 +337,15 @@ theorem Cache.rstep_lookup_log (P : K → OmProg K V) (fuel : Nat) (c : Cache K 
 
 /-- `__getitem__` of an absent key: on_miss is entered with that key first; whatever it does then only
     extends the log and raises the counters -/
-theorem Cache.rget_absent_log (P : K → OmProg K V) (fuel : Nat) {c : Cache K V} {k : K}
+theorem Cache.rget_absent_log (P : List K → K → OmProg K V) (fuel : Nat) {c : Cache K V} {k : K}
     (hk : lookup k c.ring = none) :
     (∃ l, (Cache.mach.rget P fuel c k).1.omLog = c.omLog ++ k :: l) ∧
     c.miss + 1 ≤ (Cache.mach.rget P fuel c k).1.miss ∧ c.hit ≤ (Cache.mach.rget P fuel c k).1.hit := by
   cases fuel with
   | zero => rw [Cache.rget_absent_zero P hk]; exact ⟨⟨[], rfl⟩, Nat.le_refl _, Nat.le_refl _⟩
   | succ n =>
-    have hb := (Cache.machMono (Cache.mach.missed c k)).runBody P n (P k).acts (n := 0) (Mono.refl _)
-    cases hr : runWith (Cache.mach.rstep P n) (Cache.mach.missed c k) (P k).acts with
+    have hb := (Cache.machMono (Cache.mach.missed c k)).runBody P n (P c.omLog k) (n := 0) (Mono.refl _)
+    cases hr : runProg (Cache.mach.rstep P n) (Cache.mach.missed c k) (P c.omLog k) with
     | mk body e =>
       rw [hr] at hb
       obtain ⟨l, hl⟩ := hb.log
@@ -357,13 +353,10 @@ theorem Cache.rget_absent_log (P : K → OmProg K V) (fuel : Nat) {c : Cache K V
         rw [hl]; show (c.omLog ++ [k]) ++ l = _; simp
       have hm : c.miss + 1 ≤ body.miss := hb.miss
       have hh : c.hit ≤ body.hit := hb.hit
+      rw [Cache.rget_absent P n hk hr]
       cases e with
-      | some x => rw [Cache.rget_absent_raise P n hk hr]; exact ⟨⟨l, hl'⟩, hm, hh⟩
-      | none =>
-        rw [Cache.rget_absent_done P n hk hr]
-        cases (P k).res with
-        | ret v => exact ⟨⟨l, by simpa using hl'⟩, by simpa using hm, by simpa using hh⟩
-        | keyError => exact ⟨⟨l, hl'⟩, hm, hh⟩
-        | error => exact ⟨⟨l, hl'⟩, hm, hh⟩
+      | ret v => exact ⟨⟨l, by simpa [Cache.finish] using hl'⟩, by simpa [Cache.finish] using hm, by simpa [Cache.finish] using hh⟩
+      | keyError => exact ⟨⟨l, hl'⟩, hm, hh⟩
+      | error => exact ⟨⟨l, hl'⟩, hm, hh⟩
 
 end C02
